@@ -1980,4 +1980,200 @@ theorem addAtSegsH_lookup_frame {h : Heap} {rank : Addr → Nat} (hc : h.Closed)
       simp only [contChildH, hch', hgy']
       exact ih
 
+/-! ## 13. tree-shaped documents: a container / list has ONE parent slot; deep detachment -/
+
+theorem reach_inv {h : Heap} {a b : Addr} (hab : Reach h a b) :
+    b = a ∨ ∃ (cell : Cell) (i : Nat) (k : Addr), h.get? a = some cell ∧ cell.kids[i]? = some k ∧ Reach h k b := by
+  cases hab with
+  | refl _ => exact Or.inl rfl
+  | @step _ k _ cell hg hk hkb =>
+    obtain ⟨i, hi⟩ := List.getElem?_of_mem hk
+    exact Or.inr ⟨cell, i, k, hg, hi, hkb⟩
+
+/-- the last edge of a non-trivial path -/
+theorem reach_last {h : Heap} {a b : Addr} (hab : Reach h a b) :
+    b = a ∨ ∃ p cell, Reach h a p ∧ h.get? p = some cell ∧ b ∈ cell.kids := by
+  induction hab with
+  | refl _ => exact Or.inl rfl
+  | @step x k y cell hg hk hkb ih =>
+    right
+    rcases ih with rfl | ⟨p, cp, hkp, hgp, hbp⟩
+    · exact ⟨x, cell, .refl _, hg, hk⟩
+    · exact ⟨p, cp, .step hg hk hkp, hgp, hbp⟩
+
+/-- in a tree-shaped graph a container / list is stored in exactly one slot -/
+theorem unique_parent {h : Heap} {rank : Addr → Nat} (hr : h.RankedBy rank) :
+    ∀ (n : Nat) (r : Addr), rank r ≤ n → SibSep h r →
+      ∀ (a a' k : Addr) (ca ca' : Cell) (i j : Nat), Reach h r a → Reach h r a' → h.get? a = some ca →
+        h.get? a' = some ca' → ca.kids[i]? = some k → ca'.kids[j]? = some k → Composite h k → a = a' ∧ i = j := by
+  intro n
+  induction n with
+  | zero =>
+    intro r hn hs a a' k ca ca' i j hra hra' hga hga' hi hj hk
+    -- rank r = 0: r has no children, so a = a' = r and then no slot exists
+    have hnokids : ∀ x, Reach h r x → x = r := by
+      intro x hx
+      rcases reach_inv hx with e | ⟨cell, i0, k0, hg0, hi0, _⟩
+      · exact e
+      · have := hr r cell hg0 k0 (List.mem_of_getElem? hi0)
+        omega
+    have e1 := hnokids a hra
+    subst e1
+    have := hr a ca hga k (List.mem_of_getElem? hi)
+    omega
+  | succ n ih =>
+    intro r hn hs a a' k ca ca' i j hra hra' hga hga' hi hj hk
+    have hka : k ∈ ca.kids := List.mem_of_getElem? hi
+    have hka' : k ∈ ca'.kids := List.mem_of_getElem? hj
+    rcases reach_inv hra with e | ⟨cr, i0, k0, hgr, hi0, hk0a⟩
+    · subst e
+      rcases reach_inv hra' with e' | ⟨cr', j0, k0', hgr', hj0, hk0a'⟩
+      · subst e'
+        rw [hga] at hga'; cases hga'
+        refine ⟨rfl, ?_⟩
+        apply Classical.byContradiction
+        intro hij
+        exact hs _ ca (.refl _) hga i j k k hi hj hij k (.refl _) (.refl _) hk
+      · exfalso
+        rw [hga] at hgr'; cases hgr'
+        by_cases hij : i = j0
+        · subst hij
+          rw [hi] at hj0; cases hj0
+          -- k ⇝ a' → k : a cycle
+          have h1 := rank_le_of_reach hr hk0a'
+          have h2 := hr _ ca' hga' k hka'
+          omega
+        · exact hs _ ca (.refl _) hga i j0 k k0' hi hj0 hij k (.refl _) (hk0a'.trans (.step hga' hka' (.refl _))) hk
+    · rcases reach_inv hra' with e' | ⟨cr', j0, k0', hgr', hj0, hk0a'⟩
+      · exfalso
+        subst e'
+        rw [hga'] at hgr; cases hgr
+        by_cases hij : j = i0
+        · subst hij
+          rw [hj] at hi0; cases hi0
+          have h1 := rank_le_of_reach hr hk0a
+          have h2 := hr _ ca hga k hka
+          omega
+        · exact hs _ ca' (.refl _) hga' j i0 k k0 hj hi0 hij k (.refl _) (hk0a.trans (.step hga hka (.refl _))) hk
+      · rw [hgr] at hgr'; cases hgr'
+        by_cases hij : i0 = j0
+        · subst hij
+          rw [hi0] at hj0; cases hj0
+          have hrk := hr r cr hgr k0 (List.mem_of_getElem? hi0)
+          exact ih k0 (by omega) (hs.of_reach (.step hgr (List.mem_of_getElem? hi0) (.refl _)))
+            a a' k ca ca' i j hk0a hk0a' hga hga' hi hj hk
+        · exfalso
+          exact hs r cr (.refl _) hgr i0 j0 k0 k0' hi0 hj0 hij k (hk0a.trans (.step hga hka (.refl _)))
+            (hk0a'.trans (.step hga' hka' (.refl _))) hk
+
+/-- DEEP DETACHMENT: below `root` (a tree), the container `x` gets a new children map in which the
+    member that held `y` is gone or replaced by nodes that share no container / list with `y`:
+    afterwards `root` and `y` share no container / list -/
+theorem write_detaches_deep {h : Heap} {rank : Addr → Nat} (hr : h.RankedBy rank) {root x y : Addr}
+    (hs : SibSep h root) (hrx : Reach h root x) {kvs kvs' : AMap Addr} (hg : h.get? x = some (.cont kvs))
+    {name : String} (hy : AMap.get? kvs name = some y)
+    (hk : ∀ p ∈ kvs', (p ∈ kvs ∧ p.1 ≠ name) ∨ (Apart h p.2 y ∧ ¬ Reach h p.2 x)) :
+    Apart (h.write x (.cont kvs')) root y := by
+  have hyk : y ∈ (Cell.cont kvs).kids := mem_kids_of_get? hy
+  have hyx : ¬ Reach h y x := fun hr' => not_reach_parent hr hg hyk hr' rfl
+  have hxlt := get?_lt hg
+  obtain ⟨sy, hsy⟩ := List.getElem?_of_mem hyk
+  intro b hrb hyb hcomp
+  have hyb' : Reach h y b := (reach_write_frame _ hyx).mp hyb
+  have hbx : b ≠ x := fun e => hyx (e ▸ hyb')
+  have hcomp' : Composite h b := by
+    obtain ⟨cell, hgb, hl⟩ := hcomp
+    rw [get?_write_ne h _ hbx] at hgb
+    exact ⟨cell, hgb, hl⟩
+  -- every cell reachable from the root afterwards is: reachable before or below a new member, and
+  -- no container / list below `y`
+  let S : Addr → Prop := fun a =>
+    (Reach h root a ∨ ∃ p ∈ kvs', (Apart h p.2 y ∧ ¬ Reach h p.2 x) ∧ Reach h p.2 a) ∧ ¬ (Reach h y a ∧ Composite h a)
+  have hroot : S root := by
+    refine ⟨Or.inl (.refl _), fun hh => ?_⟩
+    -- y ⇝ root ⇝ x : y would reach x
+    exact hyx (hh.1.trans hrx)
+  have hclosed : ∀ a cell, S a → (h.write x (.cont kvs')).get? a = some cell → ∀ k ∈ cell.kids, S k := by
+    intro a cell hSa hga k hkm
+    by_cases hax : a = x
+    · subst hax
+      rw [get?_write_self h _ hxlt] at hga
+      cases Option.some.inj hga
+      simp only [Cell.kids, List.mem_map] at hkm
+      obtain ⟨p, hp, rfl⟩ := hkm
+      rcases hk p hp with ⟨hpk, hpn⟩ | hnew
+      · refine ⟨Or.inl (hrx.trans (.step hg (by simp only [Cell.kids, List.mem_map]; exact ⟨p, hpk, rfl⟩) (.refl _))), ?_⟩
+        intro hh
+        obtain ⟨i, j, hij, hi, hj⟩ := kids_indices (k1 := p.1) (a1 := p.2) hpk (AMap.mem_of_get? hy) hpn
+        exact hs a _ hrx hg i j p.2 y hi hj hij p.2 (.refl _) hh.1 hh.2
+      · exact ⟨Or.inr ⟨p, hp, hnew, .refl _⟩, fun hh => hnew.1 p.2 (.refl _) hh.1 hh.2⟩
+    · rw [get?_write_ne h _ hax] at hga
+      obtain ⟨hside, hnot⟩ := hSa
+      refine ⟨?_, fun hh => ?_⟩
+      · rcases hside with hside | ⟨p, hp, hnew, hpa⟩
+        · exact Or.inl (hside.trans (.step hga hkm (.refl _)))
+        · exact Or.inr ⟨p, hp, hnew, hpa.trans (.step hga hkm (.refl _))⟩
+      · -- k is a container / list below y, stored in a
+        rcases hside with hside | ⟨p, hp, hnew, hpa⟩
+        · obtain ⟨ia, hia⟩ := List.getElem?_of_mem hkm
+          rcases reach_last hh.1 with e | ⟨pp, cp, hypp, hgpp, hkpp⟩
+          · -- k = y: its one parent is x
+            subst e
+            have := (unique_parent hr (rank root) root (Nat.le_refl _) hs a x k cell (.cont kvs) ia sy hside hrx hga hg
+              hia hsy hh.2).1
+            exact hax this
+          · -- k ≠ y: its one parent lies below y
+            obtain ⟨ip, hip⟩ := List.getElem?_of_mem hkpp
+            have hrpp : Reach h root pp := hrx.trans (.step hg hyk hypp)
+            have := (unique_parent hr (rank root) root (Nat.le_refl _) hs a pp k cell cp ia ip hside hrpp hga hgpp
+              hia hip hh.2).1
+            subst this
+            refine hnot ⟨hypp, cell, hga, ?_⟩
+            cases cell with
+            | leaf _ => simp [Cell.kids] at hkm
+            | list _ => rfl
+            | cont _ => rfl
+        · exact hnew.1 k (hpa.trans (.step hga hkm (.refl _))) hh.1 hh.2
+  have hSb : S b := Reach.closed_set S hclosed hrb hroot
+  exact hSb.2 ⟨hyb', hcomp'⟩
+
+/-- `RemoveAt(path)` / `AddValueAt(path, v)` whose walk ends in the existing container `x` and whose
+    last component is a plain member name: the node `y` that `Lookup(path)` returned before is
+    detached from the whole document below `root` -/
+theorem pathwrite_detaches {h h' : Heap} {rank : Addr → Nat} (hr : h.RankedBy rank) (hm : h.MapsOk)
+    {root x y : Addr} (hs : SibSep h root) {segs : List String} {last : String}
+    (ha : ancestorH h root segs = some x) (hl : segs.getLast? = some last) (hplain : hasIdxSuffix last = false)
+    (hy : lookupSegsH h root segs = some y) :
+    (removeAtSegsH h root segs = some h' → Apart h' root y) ∧
+    (∀ v, Apart h v y → ¬ Reach h v x → addAtSegsH h root segs v = some h' → Apart h' root y) := by
+  have hrx := ancestorH_reach segs root x ha
+  constructor
+  · intro he
+    obtain ⟨last', hl', _, h2, h3⟩ := ancestorH_spec 0 segs root x ha
+    rw [hl] at hl'; cases hl'
+    rw [h2] at he
+    rw [h3] at hy
+    unfold Ytk.Heap.remove at he
+    split at he
+    · rename_i kvs hg
+      simp only [Option.some.injEq] at he; subst he
+      rw [childH_plain hg hplain] at hy
+      exact write_detaches_deep hr hs hrx hg hy (fun p hp => Or.inl (mem_erase_ne (hm x kvs hg) hp))
+    · cases he
+  · intro v hvy hvx he
+    obtain ⟨last', hl', h1, _, h3⟩ := ancestorH_spec v segs root x ha
+    rw [hl] at hl'; cases hl'
+    rw [h1] at he
+    rw [h3] at hy
+    unfold addH at he
+    split at he
+    · rename_i kvs hg
+      simp only [Ytk.parseSeg_of_noSuffix hplain, Option.some.injEq] at he; subst he
+      rw [childH_plain hg hplain] at hy
+      refine write_detaches_deep hr hs hrx hg hy (fun p hp => ?_)
+      rcases mem_insert_ne (hm x kvs hg) hp with hp | hp
+      · exact Or.inl hp
+      · exact Or.inr (by rw [hp]; exact ⟨hvy, hvx⟩)
+    · cases he
+
 end Ytk.Heap
